@@ -452,6 +452,17 @@ def d6_eof_is_real(ctx):
                       'the end of the body by the until-close reader' % (norm_text(bad[0])[:60] if bad else 'no return'), m.loc(bad[0]) if bad else m.loc())
     if n < 2:
         raise AnalysisError('connection classes: read/readline not found')
+    # a read that ended because the close timer closed the connection is a time-out, not an end of stream: run_network_operation asks
+    # the timer afterwards, so the timer object must still be the one that was armed - only __init__ and connect may (re)bind it
+    for ci in [c for c in repo.classes.values() if c.module is mod]:
+        writers = {}
+        for m in ci.methods.values():
+            for st in F.assigned_attrs(m.node, '_close_timer'):
+                writers.setdefault(m.name, []).append(st)
+        for name, sts in writers.items():
+            ck.expect(name in ('__init__', 'connect'), 'C08-D6', ci.qual + '.' + name, 'self._close_timer is bound in __init__ / connect only',
+                      '%s replaces the close timer: the question "did the timer close this connection?" is then put to a fresh object that '
+                      'answers no, and a read cut off by the time-out returns b\'\' like a clean end of stream' % name, ci.methods[name].loc(sts[0]))
 
 
 # =============================================================================== D1
